@@ -56,6 +56,34 @@ CHECKS = {
  "C12": ("For bool and the six scalar kinds with SYMBOLIC default, environment unset / empty / arbitrary SYMBOLIC text and the option absent, given as --name=v or as --name v with arbitrary v: "
          "command line wins (bool: negated default); else a valid environment text is converted exactly (true/false case-insensitively), Called is true and CalledAs is the variable name; else the default; unset/empty changes nothing.",
          "single option; environment texts without NUL bytes; Called on an invalid numeric environment text is not asserted (statement silent); "),
+ "C13": ("The real Graph.Run is executed by the engine's interpreter with goroutines, channels, select, mutexes and time.Sleep modelled; for every DAG shape of 3 tasks, every outcome (nil / error / ErrorSkipParents) of every task, "
+         "buffered output on/off - and for 2 tasks with up to 2 retries in parallel, bounded and serial mode - EVERY order in which running tasks can be delivered to the scheduler loop is explored: "
+         "a task is entered only after each dependency exited nil; attempts are sequential, at most retries+1, none after a success.",
+         "3 tasks (2 with retries); all choices are finite-domain and enumerated by the engine, no SMT query is needed; scheduling policy 'maximal intervals' (DESIGN.md 2.8): tasks count as entered as early and returned as late as any real schedule allows; memory visibility rests on Go's happens-before edges (assumed); "),
+ "C14": ("Same exploration: after a final-attempt error or an ErrorSkipParents no transitive dependent is ever entered; Run returns nil iff no task failed, otherwise an *Errors value holding the task's error and exactly one ErrorTaskSkipped entry per never-started task that is not above a skip-parents task; "
+         "cancellation before Run or by a running task: started tasks finish, nothing that was not ready at the cancel point starts, an unfinished graph makes Run return an error.",
+         "3 tasks (2 with one retry in the three modes); cancellation by one task or before Run; "),
+ "C15": ("Four independent tasks contending for 1-3 slots or serial mode, with first-attempt failures and retries, every completion order: the number of task functions inside never exceeds the limit (1 in serial mode); "
+         "with buffered output every attempt's output reaches the writer as one contiguous block and every attempt is flushed.",
+         "4 tasks; NOT decided here: the shared-Task clause for two concurrently running graphs (the engine's scheduler supports one polling scheduler loop) - see DESIGN.md 7; "),
+ "C16": ("All sequences of 3 (thorough 4) construction calls, each a symbolic choice of AddTask / TaskDependsOn / TaskRetries over 3 tasks (re-adds, duplicate and self edges), followed by Run under every completion order: "
+         "Run returns (the engine reports a hang when the scheduler loop spins with nothing in flight, replayed natively under a time limit), a cycle is rejected before any task starts with ErrorGraphHasCycle, acyclic graphs run every task once; "
+         "DepthFirstSort on every shape: each vertex once, dependencies first; work conservation checked at every idle point of the scheduler loop over all shapes/outcomes/modes.",
+         "3 tasks, histories of 3/4 calls; "),
+ "C17": ("Over a fixed tree (aliases, valid and suggested values, two command levels with static suggestions, wrapper, help command) with a SYMBOLIC last word (any bytes without white space), 5 shapes of earlier words, bash and zsh: "
+         "the offered names are exactly the declared option names/aliases (resp. commands and suggestions) of the level reached that start with the typed text, sorted, each accepted by a normal Parse at that position; "
+         "after --name= exactly the matching values (bash: the part after '='); no CommandFn runs and the exit path is taken.",
+         "fixed tree; <=3 earlier words; last word without '=' in the name harness; dynamic completion functions are not part of the harness; "),
+ "C18": ("12 option kinds x required (none / default / custom message) x env binding x 0-2 aliases x description (absent / SYMBOLIC single line / multi-line) x level (root / inheriting command) x 0-2 sub commands x help command, with SYMBOLIC default text: "
+         "exactly one entry per option carrying all aliases, none for an alias alone, under REQUIRED PARAMETERS iff required, default and env shown as stated, mentioned in the synopsis (bracketed iff optional), each sub command once with its description, help not listed; "
+         "the text written via --help, -?, the help command equals Help().",
+         "one option under test plus two context options; descriptions and defaults free of newline, '[' and '-'; "),
+ "C19": ("Every instruction that can panic is checked and every loop is bounded on all explored paths: two UNCONSTRAINED raw tokens over the small program in all modes, one raw token (+ value / terminator / dash / command) over all 12 option kinds, "
+         "COMP_LINE with a raw last word for both targets, Dispatch and Help() after every successful Parse, int ranges whose ends reach MaxInt64 / MinInt64; a failed Parse returns nil remaining.",
+         "argv of <=2 tokens, bundles <=2 letters, numerals <=12 digits and no '..' in raw tokens (ranges have their own harness), quick tier restricts mode combinations (all 18 in thorough); "),
+ "C20": ("8 scenarios with >=2 entries in every table (missing required options at root and on a command, unknown options in Fail and Warn mode, 3 ambiguous candidates, help text, option and command completion) are run under the canonical map order and under every explored "
+         "iteration order of every map ranged over (all permutations up to 3 entries, rotations+reverse beyond): all observable output must be identical.",
+         "one iteration order per map object per run; cross-process hidden state other than map order is not modelled; natively the scenario is repeated 300 times; "),
 }
 
 NOT_YET = "check not built yet in this session (work in progress; see DESIGN.md section 12)"
